@@ -744,10 +744,20 @@ class DiffXFileSection(ContainerOptionsMixin,
                 encoding=self.diff_encoding)
 
         try:
-            hunks_info = get_unified_diff_hunks(
-                split_lines(data=self.diff,
-                            newline=newline),
-                ignore_garbage=True)
+            lines = split_lines(data=self.diff,
+                                newline=newline)
+
+            if self.diff_encoding:
+                # The hunk parser expects ASCII-compatible byte strings.
+                # Decode each line using the diff's encoding, so that diffs
+                # in encodings like UTF-16 can be processed.
+                lines = [
+                    _line.decode(self.diff_encoding).encode('utf-8')
+                    for _line in lines
+                ]
+
+            hunks_info = get_unified_diff_hunks(lines,
+                                                ignore_garbage=True)
         except Exception as e:
             logger.error('Error parsing diff hunks for %r: %s',
                          self, e)
